@@ -336,8 +336,17 @@ def gen_history(rng, faults=(1, 2, 3, 4, 5, 6, 7)):
     bl, al = names_of(files)
     versions = {f: [docs] for f, docs in files.items()}
     tree = {f: 1 for f in files}
+    # an imported directory is loaded from the first of laze-lib.yml, laze.yml, laze-project.yml that exists:
+    # candidates that do not exist yet may appear (and go) during the history
+    for f in list(files):
+        if f.startswith("vendor/lib/") and f.count("/") == 2:
+            for other in ("laze-lib.yml", "laze.yml"):
+                g = "vendor/lib/" + other
+                if g not in versions and rng.random() < 0.7:
+                    versions[g] = [mutate_docs(rng, files[f], rng.choice(["source", "env", "touch"]))]
     clis = cli_variants(rng, base_cli, bl, al)
-    dirs = sorted({os.path.dirname(f) or "." for f in files})
+    nested_root = "vendor/lib/laze-project.yml" in files or "vendor/lib/laze-project.yml" in versions    # laze would take vendor/lib for the project root
+    dirs = sorted({os.path.dirname(f) or "." for f in files if not (nested_root and f.startswith("vendor/"))})
     if len(dirs) > 1 and rng.random() < 0.5:
         # local mode (its own ninja file and cache, keyed by the start directory) next to global runs
         for _ in range(3):
